@@ -24,6 +24,10 @@ func init() {
 			"ExecutionEngine.Execute reaches planning only through the success edges of normalization (when needed), then of ValidateForSchema (err == nil ∧ Valid), and reaches the resolver only when planning reported no error; ValidateForSchema validates with DefaultOperationValidator and the validator reports Invalid whenever the report has errors. " +
 			"It does not decide accept ⇔ spec-valid for all documents (that is the rules' own logic).",
 		Mutants: []Mutant{
+			{Name: "composite fields with the same response name are not compared by name and arguments (reverts part of the F86 fix)", File: "v2/pkg/astvalidation/operation_rule_field_selection_merging.go", Rule: "C04-R15", Key: "fieldSelectionMergingVisitor.EnterField/composite-arm-reads-arguments",
+				Old: "\t\t\t\tif !bytes.Equal(f.operation.FieldNameBytes(left), fieldName) ||\n\t\t\t\t\t!f.operation.ArgumentSetsAreEquals(f.operation.FieldArguments(left), f.operation.FieldArguments(ref)) {\n", New: "\t\t\t\tif !bytes.Equal(f.operation.FieldNameBytes(left), fieldName) {\n"},
+			{Name: "the normalizer merges fields without looking at their arguments (reverts part of the F86 fix)", File: "v2/pkg/astnormalization/inline_fragment_selection_merging.go", Rule: "C04-R15", Key: "inlineFragmentSelectionMergeVisitor.fieldsCanMerge/merge-decision-reads-arguments",
+				Old: "\tif !f.operation.ArgumentSetsAreEquals(f.operation.FieldArguments(left), f.operation.FieldArguments(right)) {\n\t\treturn false\n\t}\n", New: ""},
 			{Name: "variables inside object literals are not looked for (reverts part of the F71 fix)", File: "v2/pkg/astvalidation/operation_rule_all_variable_uses_defined.go", Rule: "C04-R14", Key: "AllVariableUsesDefined/container-kinds-descended",
 				Old: "\tcase ast.ValueKindObject:\n\t\tfor _, ref := range a.operation.ObjectValues[value.Ref].Refs {\n\t\t\tif !a.checkValue(argument, a.operation.ObjectFieldValue(ref)) {\n\t\t\t\treturn false\n\t\t\t}\n\t\t}\n", New: ""},
 			{Name: "required arguments are enforced on fields only (reverts the F70 fix)", File: "v2/pkg/astvalidation/operation_rule_required_arguments.go", Rule: "C04-R13", Key: "RequiredArguments/covers:Directive",
@@ -84,6 +88,7 @@ func runC04(r *fw.Run) {
 	defer c04SubscriptionRootFieldsSeenThroughFragments(r)
 	defer c04RequiredArgumentsCoverEveryArgumentBearer(r)
 	defer c04VariableUsesFoundAtEveryDepth(r)
+	defer c04MergeDecisionsReadTheArguments(r)
 	p := r.Prog
 	pk := p.Pkg("astvalidation")
 	if pk == nil {
@@ -1051,4 +1056,136 @@ func c04VariableUsesFoundAtEveryDepth(r *fw.Run) {
 	r.Check(covered["ValueKindVariable"], "C04-R14", "AllVariableUsesDefined/variable-arm", p.Pos(ctor.Decl.Pos()), "the visitor of AllVariableUsesDefined has an arm for variable values", "no arm for ValueKindVariable was found in "+vt+": the rule no longer recognises a variable use")
 	r.Check(descends["ValueKindList"] && descends["ValueKindObject"], "C04-R14", "AllVariableUsesDefined/container-kinds-descended", p.Pos(ctor.Decl.Pos()), "the visitor of AllVariableUsesDefined descends into list and object literals",
 		vt+" does not descend into both container kinds (List, Object): `{ arg(c: [$undef]) }` / `{ arg(c: {x: $undef}) }` with `scalar Custom` — a literal no other rule looks into — is admitted with a variable the operation does not define, and reaches planning with a dangling variable")
+}
+
+// c04MergeDecisionsReadTheArguments (R15): FieldsInSetCanMerge — two selections with the same response name whose parents
+// can be the same object must be the same field with identical arguments. Two places decide "these two are the same
+// selection": the normalizer, which merges such fields into one (and thereby drops one of them), and the validator's
+// field selection merging rule, which reports a conflict. A decision that does not read the arguments of both fields
+// cannot tell dogById(id: 1) from dogById(id: 2) (an information argument, as for C02-R13). (a) every function of the
+// normalizer that compares the names of two fields given by two ref parameters also reads the arguments of both (directly
+// or through an ast helper that does); (b) in the validator's EnterField both arms of the scalar / composite split reach
+// a read of the arguments of the recorded field and of the current one.
+func c04MergeDecisionsReadTheArguments(r *fw.Run) {
+	p := r.Prog
+	r.Rule("C04-R15", "every decision that two selections are the same field reads the arguments of both: the normalizer's merge predicates, and both arms (scalar / composite) of the validator's field selection merging rule")
+	// ast helpers that read field arguments (fixed point)
+	readsArgs := map[*types.Func]bool{}
+	for changed := true; changed; {
+		changed = false
+		for _, fi := range p.Funcs("ast") {
+			if readsArgs[fi.Obj] {
+				continue
+			}
+			info := fi.Info()
+			fw.WalkAll(fi.Decl.Body, func(nd ast.Node) bool {
+				if c, ok := nd.(*ast.CallExpr); ok {
+					if fn := fw.Callee(info, c); fn != nil && (fn.Name() == "FieldArguments" || readsArgs[fn]) {
+						readsArgs[fi.Obj] = true
+					}
+				}
+				if sel, ok := nd.(*ast.SelectorExpr); ok && fw.IsFieldSel(info, sel, "ast", "Field", "Arguments") {
+					readsArgs[fi.Obj] = true
+				}
+				return true
+			})
+			if readsArgs[fi.Obj] {
+				changed = true
+			}
+		}
+	}
+	reaches := func(info *types.Info, n ast.Node) bool {
+		found := false
+		fw.WalkAll(n, func(nd ast.Node) bool {
+			if c, ok := nd.(*ast.CallExpr); ok {
+				if fn := fw.Callee(info, c); fn != nil && (fn.Name() == "FieldArguments" || readsArgs[fn]) {
+					found = true
+				}
+			}
+			return true
+		})
+		return found
+	}
+	// (a) normalizer predicates
+	nA := 0
+	for _, fi := range p.Funcs("astnorm") {
+		sig := fi.Obj.Type().(*types.Signature)
+		if sig.Results().Len() != 1 || !types.Identical(sig.Results().At(0).Type(), types.Typ[types.Bool]) {
+			continue
+		}
+		var refs []*types.Var
+		for i := 0; i < sig.Params().Len(); i++ {
+			if types.Identical(sig.Params().At(i).Type(), types.Typ[types.Int]) {
+				refs = append(refs, sig.Params().At(i))
+			}
+		}
+		if len(refs) != 2 {
+			continue
+		}
+		info := fi.Info()
+		named := map[*types.Var]bool{}
+		fw.WalkAll(fi.Decl.Body, func(nd ast.Node) bool {
+			if c, ok := nd.(*ast.CallExpr); ok && len(c.Args) == 1 {
+				if fn := fw.Callee(info, c); fn != nil && strings.HasPrefix(fn.Name(), "FieldName") {
+					if id, isID := ast.Unparen(c.Args[0]).(*ast.Ident); isID {
+						for _, pv := range refs {
+							if info.Uses[id] == pv {
+								named[pv] = true
+							}
+						}
+					}
+				}
+			}
+			return true
+		})
+		if !named[refs[0]] || !named[refs[1]] {
+			continue
+		}
+		nA++
+		r.Check(reaches(info, fi.Decl.Body), "C04-R15", fi.Name()+"/merge-decision-reads-arguments", p.Pos(fi.Decl.Pos()), fi.Name()+", which compares the names of two fields, also reads their arguments",
+			fi.Name()+" decides that two fields are the same selection from their names (and aliases, directives) without reading their arguments: `{ dogById(id: 1) { name } dogById(id: 2) { name } }` is merged into `{dogById(id: 1){name}}` — the second field, with its different argument, is silently dropped, and the conflict is erased before the validator sees it")
+	}
+	r.Expect("C04-R15", "normalizer predicates that compare the names of two fields", nA, 1)
+	// (b) validator
+	fi := p.Func("astvalidation", "fieldSelectionMergingVisitor.EnterField")
+	if fi == nil {
+		r.Error("C04-R15: fieldSelectionMergingVisitor.EnterField not found")
+		return
+	}
+	info := fi.Info()
+	var split *ast.IfStmt
+	fw.WalkAll(fi.Decl.Body, func(nd ast.Node) bool {
+		is, ok := nd.(*ast.IfStmt)
+		if !ok || split != nil {
+			return true
+		}
+		a := fw.Atom(info, is.Cond, true)
+		if (a.Kind == "Ne" || a.Kind == "Eq") && fw.ConstObj(info, a.Y) != nil && fw.ConstObj(info, a.Y).Name() == "NodeKindScalarTypeDefinition" {
+			split = is
+		}
+		return true
+	})
+	if split == nil {
+		r.Error("C04-R15: the scalar / composite split of EnterField was not found")
+		return
+	}
+	r.Check(reaches(info, split.Body), "C04-R15", fi.Name()+"/composite-arm-reads-arguments", p.Pos(split.Pos()), "the composite arm of "+fi.Name()+" reads the arguments of the two fields it compares",
+		"the arm of the field selection merging rule that handles fields with selections never reads field arguments: `{ a: dog { name } a: cat { name } }` and `{ dogById(id: 1) { name } dogById(id: 2) { name } }` — same response name, same parent, different field or arguments — are admitted")
+	// the scalar arm: everything of the function after the split (the split's arm returns)
+	rest := false
+	after := false
+	for _, st := range fi.Decl.Body.List {
+		if st == ast.Stmt(split) {
+			after = true
+			continue
+		}
+		if after && reaches(info, st) {
+			rest = true
+		}
+	}
+	if split.Else != nil && reaches(info, split.Else) {
+		rest = true
+	}
+	r.Check(rest, "C04-R15", fi.Name()+"/scalar-arm-reads-arguments", p.Pos(split.End()), "the scalar arm of "+fi.Name()+" reads the arguments of the two fields it compares",
+		"the arm of the field selection merging rule that handles leaf fields never reads field arguments")
 }
